@@ -17,16 +17,16 @@ def make_big_job(rng, seed):
     earlier, already accepted call, so file-system operations (and their failures) happen inside H5Dwrite itself"""
     n, d, fc, sc = 1000000, 1, 1000, 3600
     t0 = (rng.randint(315532800, 4102444800) // sc) * sc * 1000 + rng.randint(0, sc - 3) * fc
-    # chunks of 400-480 kB: two fit into the cache, the third write evicts the first
+    # the first write call sets the chunk length (its own length when ten times that exceeds a file): chunks of 100000-125000
+    # samples of 4 or 8 bytes stay below the cache size, so they are cached, and the second or third one evicts the first
     dt = rng.choice(["<i4", "<f4", "<i8"])
-    unit = 4 if dt != "<i8" else 8
     cc = cd.ChanConfig(n, d, fc, sc, np.dtype(dt), False, 1, "gapped", t0, 3, compression=0, checksum=False, seed=seed)
     b = cc.bound
     start = b[0]
     ops = [["open", start + cc.B]]
     pos = start
     for c in range(rng.randint(5, 7)):
-        ln = rng.choice([400000, 440000, 480000]) // unit
+        ln = rng.choice([100000, 110000, 125000])
         a = pos + rng.choice([0, 0, 0, 3])
         if a + ln > b[-1] - 1:
             break
